@@ -237,9 +237,9 @@ func secretKeyResponseFieldRuleFor(P *Program, R *Report, rule string) {
 				}
 				var base, exp ssa.Value
 				if calleeIs(call, "common.ModPow") {
-					base, exp = call.Call.Args[0], call.Call.Args[1]
+					base, exp = callArgs(call)[0], callArgs(call)[1]
 				} else if bigMethod(call) == "Exp" {
-					base, exp = call.Call.Args[1], call.Call.Args[2]
+					base, exp = callArgs(call)[1], callArgs(call)[2]
 				} else {
 					continue
 				}
@@ -333,6 +333,7 @@ func noKeyZero(P *Program, R *Report, rule, construct, mapDesc string, parts []f
 func sharedRandomizerRule(P *Program, R *Report) {
 	rule := "C03.d"
 	const skey = `arg#1["secretkey"]`
+	skSlot := ""
 	// DisclosureProofBuilder.Commit
 	if fn := mustFunc(P, R, rule, "gabi.(*DisclosureProofBuilder).Commit"); fn != nil {
 		mp(P, R, rule, FuncKey(fn)+":takes-shared", "every successful Commit installs randomizers[\"secretkey\"] as the randomiser of attribute 0", fn, AcceptNilErr(1),
@@ -342,18 +343,26 @@ func sharedRandomizerRule(P *Program, R *Report) {
 			}})
 	}
 	if fn := mustFunc(P, R, rule, "gabi.(*CredentialBuilder).Commit"); fn != nil {
+		// the slot is whichever field (path) of the builder Commit files the shared randomiser in: discovered, not named
+		allInstrs(fn, func(i ssa.Instruction) {
+			if st, ok := i.(*ssa.Store); ok && desc(st.Val) == skey && strings.HasPrefix(desc(st.Addr), "<gabi.CredentialBuilder>.") {
+				if skSlot == "" {
+					skSlot = desc(st.Addr)
+				}
+			}
+		})
 		mp(P, R, rule, FuncKey(fn)+":takes-shared", "every successful Commit installs randomizers[\"secretkey\"] as the secret's randomiser", fn, AcceptNilErr(1),
 			&MustPass{Instr: func(f *ssa.Function, i ssa.Instruction) bool {
 				st, ok := i.(*ssa.Store)
-				return ok && desc(st.Addr) == "<gabi.CredentialBuilder>.skRandomizer" && desc(st.Val) == skey
+				return ok && skSlot != "" && desc(st.Addr) == skSlot && desc(st.Val) == skey
 			}})
 		// the commitment uses it as exponent of R[0]
 		usesIt := false
 		for _, c := range callsIn(fn) {
 			if call, ok := c.(*ssa.Call); ok && bigMethod(call) == "Exp" {
-				if desc(call.Call.Args[1]) == "<gabikeys.PublicKey>.R[0]" || strings.HasSuffix(desc(call.Call.Args[1]), ".pk.R[0]") {
-					d := desc(call.Call.Args[2])
-					if d == "<gabi.CredentialBuilder>.skRandomizer" || d == skey {
+				if desc(callArgs(call)[1]) == "<gabikeys.PublicKey>.R[0]" || strings.HasSuffix(desc(callArgs(call)[1]), ".pk.R[0]") {
+					d := desc(callArgs(call)[2])
+					if (skSlot != "" && d == skSlot) || d == skey {
 						usesIt = true
 					}
 				}
@@ -364,7 +373,7 @@ func sharedRandomizerRule(P *Program, R *Report) {
 	// responses
 	if fn := mustFunc(P, R, rule, "gabi.(*CredentialBuilder).CreateProof"); fn != nil {
 		be := P.bigEval(fn)
-		want := tsum(tsym("<gabi.CredentialBuilder>.skRandomizer"), tmul(tsym("arg#1"), tsym("<gabi.CredentialBuilder>.secret")))
+		want := tsum(tsym(skSlot), tmul(tsym("arg#1"), tsym("<gabi.CredentialBuilder>.secret")))
 		found, got := false, ""
 		allInstrs(fn, func(i ssa.Instruction) {
 			if st, ok := i.(*ssa.Store); ok && strings.HasSuffix(desc(st.Addr), "gabi.ProofU.SResponse") {
